@@ -30,7 +30,7 @@ def body(ck, F, cfg):
     ck.fn(AN.H.P_VER + "verification_scalars")
     pad = REF.pad_of(REF.n1 + REF.n2)
     where = "src/r1cs/verifier.rs (verify_and_return_transcript)"
-    msms = [m for m in I.msm_log if m["fn"].endswith("verify_and_return_transcript")]
+    msms = list(I.msm_log)  # the run interprets verify_and_return_transcript only: its whole dynamic extent counts (the check may live in a helper)
     if len(msms) != 1:
         ck.fail("R03.1", "single-msm", f"expected exactly one multiscalar check, found {len(msms)}", where)
         return
